@@ -830,6 +830,8 @@ class PseudoNetCDFFile(PseudoNetCDFSelfReg, object):
                 'Cannot rename several dimensions to the same name: %s' %
                 (newkeys,))
         for oldkey, newkey in newkeys.items():
+            if oldkey not in outf.dimensions:
+                raise KeyError(oldkey)
             if newkey in outf.dimensions:
                 raise ValueError(
                     'Cannot rename dimension %s to %s; %s already exists' %
